@@ -79,6 +79,7 @@ IT k_left_from_right(IT const*, IT const*); IT k_right_from_left(IT const*, IT c
 IT k_stride_map(IT const*, IT const*, IT const*); IT k_stride_map_arr(IT const*, IT const*, IT const*); IT k_stride_stride(IT const*, IT const*, sz);
 void k_stride_strides(IT const*, IT const*, IT*); IT k_stride_ext(IT const*, IT const*, sz); unsigned k_stride_flags(); IT k_stride_req(IT const*, IT const*);
 ELT* k_md_stride_at(ELT*, IT const*, IT const*, IT const*); IT k_md_stride_stride(ELT*, IT const*, IT const*, sz); UIT k_md_stride_size(ELT*, IT const*, IT const*);
+void k_mdas(IT const*, IT const*, IT const*, bool, ELT, sz*);
 void k_sub_ext(IT const*, sz, IT const*, sz*, sz*, IT*); void k_sub_pair(IT const*, IT, IT, sz*, sz*, IT*);
 }
 
@@ -249,9 +250,6 @@ Q q_stride()
         vf_assert(k_stride_ext(e, s, r) == e[r], "stride: extents() are the ones given");
     }
     vf_assert(k_stride_flags() == (1u | 4u | 8u | 32u), "stride: is_unique, is_strided, is_always_unique, is_always_strided, not is_always_exhaustive");
-#ifdef C19_STRIDE_REQ_DEFINED
-    vf_assert(u64(k_stride_req(e, s)) == span, "stride: required_span_size() == 1 + sum (extent-1)*stride, 0 for an empty index space");
-#endif
     if (span == 0 && (ZS || RD > 0)) vf_witness("zero-sized index space");
     if (!ZS) {
         idx_t* i = draw_idx(e); idx_t* j = draw_idx(e);
@@ -310,11 +308,15 @@ Q q_md_stride()
 {
     idx_t* e = draw_ext(); idx_t* s = draw_strides(e); u64 span = span_stride(e, s);
     ELT* p = (ELT*)vf_alloc(span * sizeof(ELT));
+    idx_t req = k_stride_req(e, s);
+    vf_assert(req >= 0 && u64(req) == span, "stride: required_span_size() == 1 + sum (extent-1)*stride, 0 if any extent is 0, 1 for rank 0");
+    if (span == 0 && (ZS || RD > 0)) vf_witness("stride: zero-sized index space");
     vf_assert(u64(k_md_stride_size(p, e, s)) == prod(e, 0, R), "mdspan<stride>: size() == product of extents");
     for (sz r = 0; r < R; r++) vf_assert(k_md_stride_stride(p, e, s, r) == s[r], "mdspan<stride>: stride(r)");
     if (!ZS) {
         idx_t* i = draw_idx(e);
         vf_assert(off_stride(s, i) < span, "mdspan<stride>: element lies inside the required span");
+        vf_assert(k_stride_map(e, s, i) < req, "stride: m(i...) < required_span_size()");
         vf_assert(k_md_stride_at(p, e, s, i) == p + off_stride(s, i), "mdspan<stride>: &md(i...) == data + sum i_r * stride_r");
     }
 }
@@ -418,5 +420,40 @@ Q q_sub_pair()
     k_sub_pair(e, lo, hi, orank, ost, oex);
     vf_assert(*orank == 1 && ost[0] == DYN, "submdspan_extents(pair of indices): rank 1, dynamic extent");
     vf_assert(u64(oex[0]) == u64(hi) - u64(lo), "submdspan_extents(pair of indices): extent == hi - lo");
+}
+#endif
+
+// ---------------------------------------------------------------- mdarray<int, E, layout_stride, C> with a size-constructible container C whose storage is a block of
+// exactly the size mdarray passes to C(n[, value]): (mapping, value) and (mapping) constructors with symbolic padded / permuted strides
+#if RANK > 0
+#ifndef MDAS_MAX
+#define MDAS_MAX 16
+#endif
+Q q_mda_stride()
+{
+    idx_t* e = draw_ext(); idx_t* s = draw_strides(e); u64 span = span_stride(e, s); u64 size = prod(e, 0, R);
+    vf_assume(span <= MDAS_MAX);   // bound of the container fill loop
+    ELT val = ELT(vf_nd_u32());
+    idx_t* i = block(); bool acc = false; u64 want = 0;
+    if (!ZS) {   // a multi-index, in range if the index space is not empty (then the access part of the kernel runs)
+        acc = true;
+        for (sz r = 0; r < R; r++) { idx_t v = nd_it(); if (!(v >= 0 && u64(v) < u64(e[r]))) { v = 0; acc = false; } i[r] = v; }
+        for (sz r = 0; r < R; r++) if (e[r] == 0) acc = false;
+        want = off_stride(s, i);
+    }
+    sz* o = (sz*)vf_alloc(11 * sizeof(sz));
+    k_mdas(e, s, i, acc, val, o);
+    vf_assert(o[3] == span, "mdarray<stride>: mapping().required_span_size() == standard formula");
+    vf_assert(o[0] >= span, "mdarray<stride>(mapping, value): container holds at least required_span_size() elements");
+    vf_assert(o[1] >= span, "mdarray<stride>(mapping): container holds at least required_span_size() elements");
+    vf_assert(o[0] == span && o[1] == span, "mdarray<stride>: a size-constructible container is created with required_span_size() elements");
+    vf_assert(o[2] == u64(UIT(size)) && o[4] == 0, "mdarray<stride>: size() == product of extents; container_data()");
+    if (!ZS && MULTI && span > size) vf_witness("padded strides: required span larger than the number of elements");
+    if (acc) {
+        vf_assert(want < span, "mdarray<stride>: m(i...) inside the required span");
+        vf_assert(o[5] == want && o[6] == want && o[9] == want && o[10] == want, "mdarray<stride>: a(i...), a[span], to_mdspan()(i...) == container_data() + sum i_r * stride_r");
+        vf_assert(o[7] == 1 && o[8] == 1, "mdarray<stride>: a(i...) reads the fill value, a write through a(i...) is read back");
+        if (MULTI && want >= size) vf_witness("element at an offset >= product of extents");
+    }
 }
 #endif
